@@ -347,10 +347,14 @@ func (g *TemplateGenerator) getTemplate(ctx context.Context) (string, *gojsonsch
 		if !strings.HasPrefix(g.templateName, protocol) {
 			continue
 		}
+		// The cache entry remembers the schema URL it was created with, so the
+		// key must contain it: the same template can be configured with
+		// different `template-schema` values in different packages.
+		cacheKey := remoteTemplateCacheKey(g.templateName, g.templateSchema)
 		var remoteTemplate *RemoteTemplate
-		if cachedRemoteTemplate, ok := g.remoteTemplateCache[g.templateName]; !ok {
+		if cachedRemoteTemplate, ok := g.remoteTemplateCache[cacheKey]; !ok {
 			remoteTemplate = NewRemoteTemplate(g.templateName, g.templateSchema)
-			g.remoteTemplateCache[g.templateName] = remoteTemplate
+			g.remoteTemplateCache[cacheKey] = remoteTemplate
 		} else {
 			remoteTemplate = cachedRemoteTemplate
 		}
